@@ -22,7 +22,7 @@ prop(
     level_text="Exploration: millions of operation histories on the real segment tree, each ended by a complete probe of all "
                "ranges, judged by an independent left-to-right fold over a plain array. The free monoid with the full "
                "transformation monoid as modifiers makes any wrong order, lost push or double application observable; a "
-               "bounded scope (n<=5, all op sequences to a stated length) is enumerated completely. Held-on-observed, not a proof. Since the seeded rounds 3-4 also: a modifier of zero size (FlipCount), sleeper histories (exactly 2^8 / 2^16 (+-1) non-querying operations between two identical queries), trees of 2^20+1 .. 2^23+5 elements incl. a non-commutative algebra with queries ragged at both ends. Since the seeded rounds 5-6 also: padded items of several hundred bytes and items whose operations call back into another tree, Min / Max over key+payload elements ordered by the key only (ties everywhere: the left-to-right merge keeps the last extremal element), a pair combinator over different element types; in the thorough tier a gap of 2^32 (-1, +0, +1) operations between two identical queries.",
+               "bounded scope (n<=5, all op sequences to a stated length) is enumerated completely. Held-on-observed, not a proof. Since the seeded rounds 3-4 also: a modifier of zero size (FlipCount), sleeper histories (exactly 2^8 / 2^16 (+-1) non-querying operations between two identical queries), trees of 2^20+1 .. 2^23+5 elements incl. a non-commutative algebra with queries ragged at both ends. Since the seeded rounds 5-6 also: padded items of several hundred bytes and items whose operations call back into another tree, Min / Max over key+payload elements ordered by the key only (ties everywhere: the left-to-right merge keeps the last extremal element), a pair combinator over different element types; in the thorough tier a gap of 2^32 (-1, +0, +1) operations between two identical queries. Since the seeded round 7 also: SumAdd over the rings Z/2, Z/6, Z/12 and Z/256 (a modifier times a node length can vanish although the modifier does not), Sum over a concatenation type (associative, not commutative).",
     level_note="Trusted: the harness item algebras (law-abiding by construction, identity self-checked), the shadow-array "
                "semantics and the fold oracle; rustc. Not covered: algebras outside the list, histories longer than 48 ops "
                "before the probe, sizes above 4097.",
@@ -65,7 +65,7 @@ prop(
     level_text="Exploration: tens of millions of boundary searches on the real segment tree after random and enumerated "
                "histories (searches issued while modifications are still pending), each answer compared with a linear scan, "
                "and each aggregate shown to the predicate compared with the fold of precisely the range it must represent "
-               "(exact for the free monoid, where the word length identifies the range). Held-on-observed, not a proof. Since the seeded rounds 3-4 also: zero-sized modifiers, sleeper histories, huge trees with searches at the two ends, re-entrant predicates (the predicate searches a second tree) and a logical call budget that turns a non-terminating search into a verdict. Since the seeded rounds 5-6 also: padded and re-entrant items, a Combinator in which one half's pending state never cancels (a count of the modifications that covered an element, next to a range add whose sum returns to zero).",
+               "(exact for the free monoid, where the word length identifies the range). Held-on-observed, not a proof. Since the seeded rounds 3-4 also: zero-sized modifiers, sleeper histories, huge trees with searches at the two ends, re-entrant predicates (the predicate searches a second tree) and a logical call budget that turns a non-terminating search into a verdict. Since the seeded rounds 5-6 also: padded and re-entrant items, a Combinator in which one half's pending state never cancels (a count of the modifications that covered an element, next to a range add whose sum returns to zero). Since the seeded round 7 also: the ring and concatenation algebras of C01 under the searches.",
     level_note="Trusted: monotonicity of the generated predicates (by construction), the shadow array and scan oracle. Not "
                "covered: non-monotone predicates and items whose Default is not the merge identity (outside the property).",
     runs=[
@@ -107,7 +107,7 @@ prop(
                "parts) under six priority regimes including ties and monotone priorities, plus a bounded scope (n<=5 "
                "elements x every weak ordering of the priorities x every op sequence to a stated length) enumerated "
                "completely. Every API result is compared with a Vec model and, after every operation, a walk that does "
-               "not perturb pending state checks the effective sequence and the stored aggregate of every node. Since the seeded rounds 3-4 also: items inserted while they still carry a pending modification, and path-shaped treaps 2100..3400 nodes deep (priorities through the public fields) under the same operations with the complete walk after each. Since the seeded rounds 5-6 also: split_by predicates that split / merge / collect an independent treap of the same thread while the outer split runs (nested once more inside), histories handed to a fresh thread every few operations (treaps with pending modifications included), balanced and path-shaped deep treaps with root attachments and boundary cuts.",
+               "not perturb pending state checks the effective sequence and the stored aggregate of every node. Since the seeded rounds 3-4 also: items inserted while they still carry a pending modification, and path-shaped treaps 2100..3400 nodes deep (priorities through the public fields) under the same operations with the complete walk after each. Since the seeded rounds 5-6 also: split_by predicates that split / merge / collect an independent treap of the same thread while the outer split runs (nested once more inside), histories handed to a fresh thread every few operations (treaps with pending modifications included), balanced and path-shaped deep treaps with root attachments and boundary cuts. Since the seeded round 7 also: an item whose lazy modification depends on the position (add an arithmetic progression: the right child receives it advanced by the size of the left subtree + 1).",
     level_note="Trusted: the two harness item types (affine-sum and free-word items, lawful by construction), the Vec model, "
                "the walk. Not covered: items that break the laws, treaps larger than ~60 elements in this mode (C16 covers size).",
     runs=[
@@ -143,7 +143,7 @@ prop(
                "grow-shrink-grow) up to 2^19 (quick) / 2^22 (thorough) elements with the library's own priorities; at staged "
                "checkpoints (n = 16, 64, 256, ... and after each phase) every parent-child edge is checked for heap order in "
                "one consistent direction and the height against 5*log2(n+1)+20. A degenerate priority source is reported "
-               "at n=64..256, before recursion depth matters. Since the seeded rounds 3-4 also: stride scan (Cartesian-tree screening of every creation stride <= 4096 over 4 million observed priorities, the three worst strides built for real). Since the seeded rounds 5-6 also: power-of-two strides, sequential worker threads, and the priority values 0 and u32::MAX themselves: located in the generator streams of the next threads of the process (calibrated model of the per-thread generator), the thread advanced to just before them and 3000 sorted appends built around them, the value confirmed in the treap.",
+               "at n=64..256, before recursion depth matters. Since the seeded rounds 3-4 also: stride scan (Cartesian-tree screening of every creation stride <= 4096 over 4 million observed priorities, the three worst strides built for real). Since the seeded rounds 5-6 also: power-of-two strides, sequential worker threads, and the priority values 0 and u32::MAX themselves: located in the generator streams of the next threads of the process (calibrated model of the per-thread generator), the thread advanced to just before them and 3000 sorted appends built around them, the value confirmed in the treap. Since the seeded round 7 also: one treap cut into 1500 parts with an element inserted into each and gathered again, repetition of the priority stream (a 64-bit coincidence of consecutive values) with its lag added to the stride scan.",
     level_note="Trusted: the iterative walk. The bound is probabilistic for a correct treap (failure < 1e-15). A process death "
                "(stack exhaustion) is mapped to a violation for this property. Not covered: histories outside the driven orders.",
     runs=[
@@ -169,7 +169,7 @@ prop(
                "Sieve is built and all of min_prime, is_prime, primes and factorize(n) for every n<=N are compared with "
                "trial division, so every position of N relative to primes and prime squares is hit; limits adjacent to "
                "p, p^2, p*q up to 10^6 and the limits 10^6 (and 10^7) are compared element by element with an independent "
-               "sieve of Eratosthenes. Since the seeded rounds 3-4 also: every limit k*1024 / k*4096 / k*1000 / k*10000, a limit beyond 2^24, Iterator-call scripts on factorize. Since the seeded rounds 5-6 also: a sieve of 223 092 870 + 641 entries (and 2^28 + 57 in thorough): is_prime and the whole prime list against a bit sieve and min_prime a prime divisor for every n, factorize and exact min_prime against trial division on every prime power of the primes below 1000, the square-free products of the first 13 primes (nine distinct factors), smooth numbers, semiprimes at the square root, both table ends, neighbourhoods of powers of two and 40 000 random n.",
+               "sieve of Eratosthenes. Since the seeded rounds 3-4 also: every limit k*1024 / k*4096 / k*1000 / k*10000, a limit beyond 2^24, Iterator-call scripts on factorize. Since the seeded rounds 5-6 also: a sieve of 223 092 870 + 641 entries (and 2^28 + 57 in thorough): is_prime and the whole prime list against a bit sieve and min_prime a prime divisor for every n, factorize and exact min_prime against trial division on every prime power of the primes below 1000, the square-free products of the first 13 primes (nine distinct factors), smooth numbers, semiprimes at the square root, both table ends, neighbourhoods of powers of two and 40 000 random n. Since the seeded round 7 also: nth(k) / skip(k) / step_by(k + 1) exactly for every k on the 700 000 numbers rich in distinct primes, 3-5 million factorisations in random order.",
     level_note="Trusted: the engine's trial division and bit-sieve (cross-checked against each other and against pi(x) at "
                "nine points on every run; a failed self-check is inconclusive). Not covered: limits above 10^7.",
     runs=[
@@ -196,7 +196,7 @@ prop(
                "(exact sequence equality incl. order, first and last element), structured and random masks with bounded "
                "popcount for the ten wider types; next_permutation / iter_permutations for every sequence over {0,1,2} up "
                "to length 7 and from every arrangement of up to 8 distinct elements; the three neighbour iterators at "
-               "every cell of every grid up to 6x6 (order included) plus large and degenerate grids. Since the seeded rounds 3-4 also: random scripts of Iterator calls on masks (all 12 types), permutations and neighbours; permutations of 32-byte, tuple-with-String and Box elements. Since the seeded rounds 5-6 also: zero-sized, signed-byte, boxed and string-pair elements; exact-exhaustion steps in the iterator scripts (take exactly the remaining count, then last / max / min / count).",
+               "every cell of every grid up to 6x6 (order included) plus large and degenerate grids. Since the seeded rounds 3-4 also: random scripts of Iterator calls on masks (all 12 types), permutations and neighbours; permutations of 32-byte, tuple-with-String and Box elements. Since the seeded rounds 5-6 also: zero-sized, signed-byte, boxed and string-pair elements; exact-exhaustion steps in the iterator scripts (take exactly the remaining count, then last / max / min / count). Since the seeded round 7 also: long walks of 2^21..2^22 members (low bits, both ends with the sign bit, the middle of the type) for every 32-, 64- and 128-bit type.",
     level_note="Trusted: the brute-force models (each expected sequence is itself proved - length, monotonicity, membership - "
                "before the library is called; a failed proof is inconclusive). The neighbour offset orders are frozen from "
                "the documented behaviour. Not covered: masks of the wide types with more than 12/16 free bits.",
@@ -221,7 +221,7 @@ prop(
                "reduced residues (i64, i32, i128), 8-bit gcd/lcm pairs exhaustively, and millions of sampled triples / "
                "congruence pairs up to 2^20 biased to zeros, negatives, multiples, non-coprime moduli and results next to the "
                "lcm. The oracle is the definition itself (a*x+b*y=c exactly; None iff gcd does not divide c; 0<=x<lcm and "
-               "both congruences), never a particular solution. Run with overflow checks on as well. Since the seeded rounds 3-4 also: full-width Fibonacci pairs for every type, crt on i32 / i16 with moduli sharing a large factor (product beyond the type, lcm and Bezout multiples inside). Since the seeded rounds 5-6 also: related calls after a call for gcd, and a termination monitor that runs first: every function on an operation-counting Integer of the harness (a budget of 50 000 arithmetic operations per call, Euclid needs < 200) with operands of very different magnitudes, Fibonacci pairs and random widths - a call that does not come back is a verdict in logical steps, and the native phases (which would hang) are skipped then.",
+               "both congruences), never a particular solution. Run with overflow checks on as well. Since the seeded rounds 3-4 also: full-width Fibonacci pairs for every type, crt on i32 / i16 with moduli sharing a large factor (product beyond the type, lcm and Bezout multiples inside). Since the seeded rounds 5-6 also: related calls after a call for gcd, and a termination monitor that runs first: every function on an operation-counting Integer of the harness (a budget of 50 000 arithmetic operations per call, Euclid needs < 200) with operands of very different magnitudes, Fibonacci pairs and random widths - a call that does not come back is a verdict in logical steps, and the native phases (which would hang) are skipped then. Since the seeded round 7 also: 64 threads inside egcd / crt at the same moment on consecutive Fibonacci numbers.",
     level_note="Trusted: own Euclid and i128 arithmetic of the engine. lcm is judged only where |a*b| fits the type; the signed "
                "minimum is excluded (as the property states).",
     runs=[
@@ -250,7 +250,7 @@ prop(
                "in both argument orders, binomial worst case through roots and through deepest elements, stars, "
                "caterpillars, random with interleaved lookups) up to 2^17 (quick) / 4*10^6 (thorough) elements with staged "
                "depth checkpoints after 64, 256, 1024, ... unions so that a degenerating forest is reported long before "
-               "recursion depth matters. Since the seeded rounds 3-4 also: sleeper histories (a vertex looked up, exactly 2^8 / 2^16 (+-1) unions / resets that never mention it or its residue class mod 8, looked up again), clone_from between structures of different sizes, small components at both ends of the index range up to n = 1.5 million, reset to large sizes. Since the seeded rounds 5-6 also: absorb-after-lookup, repeated resets, five construction routes for every adversarial order (new, reset from one element, growth inside spare capacity, shrinking, reset after use), size / check on the deepest never-looked-up elements before any lookup, ladders of ~30 constructions with climbing sizes on one fresh thread.",
+               "recursion depth matters. Since the seeded rounds 3-4 also: sleeper histories (a vertex looked up, exactly 2^8 / 2^16 (+-1) unions / resets that never mention it or its residue class mod 8, looked up again), clone_from between structures of different sizes, small components at both ends of the index range up to n = 1.5 million, reset to large sizes. Since the seeded rounds 5-6 also: absorb-after-lookup, repeated resets, five construction routes for every adversarial order (new, reset from one element, growth inside spare capacity, shrinking, reset after use), size / check on the deepest never-looked-up elements before any lookup, ladders of ~30 constructions with climbing sizes on one fresh thread. Since the seeded round 7 also: perfect binomial trees meeting slightly smaller components (built in both orders, united in both argument orders, no lookups).",
     level_note="Trusted: the relabelling model and the compression-free union-find used above 4096 elements; the hook only "
                "exposes the parent and size arrays read-only. The depth bound is checked on the orders driven, not for all "
                "orders. Process death (stack exhaustion) counts as a violation for this property.",
@@ -283,7 +283,7 @@ prop(
                "assigning forms, negation, pow, division where coprime; boundary x boundary and random operands for 46 large "
                "moduli (competition primes, 2^31-1 ... 2^31-20, 2^30 and neighbours, 2^16(+1), 46337^2, 46340*46341, "
                "primorial, composites); constructor arguments incl. i64::MIN/MAX and +-2^32; exponents to u64::MAX; "
-               "canonicity (inner() < M) after every operation; Display/Debug/Writable/Readable through the canonical value. Since the seeded rounds 3-4 also: 20 moduli around 2^26.5 / 2^27 / 2^24 / sqrt(2^31), operands at the square roots of the integer widths, products steered to remainder M-1 / M-2 / 1 with both factors next to M. Since the seeded rounds 5-6 also: pseudoprime and power-of-two moduli, zero divisors and nilpotent residues of non-squarefree moduli, exponents 3..8 / 15..17 / 31..33 / 63..65.",
+               "canonicity (inner() < M) after every operation; Display/Debug/Writable/Readable through the canonical value. Since the seeded rounds 3-4 also: 20 moduli around 2^26.5 / 2^27 / 2^24 / sqrt(2^31), operands at the square roots of the integer widths, products steered to remainder M-1 / M-2 / 1 with both factors next to M. Since the seeded rounds 5-6 also: pseudoprime and power-of-two moduli, zero divisors and nilpotent residues of non-squarefree moduli, exponents 3..8 / 15..17 / 31..33 / 63..65. Since the seeded round 7 also: exact multiples of M of every decimal length with both signs through new and read, pow(e) directly followed by pow(0), pow(1) and pow(e) again on the same base.",
     level_note="Trusted: i128/u128 oracle arithmetic. Moduli not in the instantiated list are not executed (const generic). "
                "Division by non-coprime values is outside the property and never executed.",
     runs=[
@@ -336,7 +336,7 @@ prop(
                "must panic for index / index_mut / get_index, constructors must reject zero extents and wrong lengths, "
                "write produces the separator grammar and reads back equal for all 12 integer types and strings, and "
                "equality is checked for single-element differences and for equal data under every different shape of the "
-               "same rank and size. Since the seeded rounds 3-4 also: indices 2^e + j that wrap a power-of-two stride, clone_from across shapes, Iterator-call scripts on iter / into_iter, writes behind pending output that ends at the buffer edge. Since the seeded rounds 5-6 also: digit-structured integers (interior groups of zeros and nines), NaN and zero-sized elements under ==, double-ended iterator scripts, control bytes in strings, stream boundary checks.",
+               "same rank and size. Since the seeded rounds 3-4 also: indices 2^e + j that wrap a power-of-two stride, clone_from across shapes, Iterator-call scripts on iter / into_iter, writes behind pending output that ends at the buffer edge. Since the seeded rounds 5-6 also: digit-structured integers (interior groups of zeros and nines), NaN and zero-sized elements under ==, double-ended iterator scripts, control bytes in strings, stream boundary checks. Since the seeded round 7 also: streams of 5..11 large tensors (hundreds of kilobytes, the text ending with the last digit) through one writer and one reader fed in large and in shrinking pieces.",
     level_note="Trusted: the engine's Horner offset and odometer, catch_unwind observation of panics. Ranks above 4 and extents "
                "above 5 (7 in thorough) are not enumerated.",
     runs=[
@@ -363,7 +363,7 @@ prop(
                "strings, chars, tuples to arity 8, vectors, LF/CRLF/lone-CR/unterminated lines, eof tests) run under "
                "one-shot, one-byte, stale-buffer and random schedules with up to 50 % interrupts; inputs longer than the "
                "internal buffer place tokens, '-'|digits and CR|LF across k*BUF and chunk edges (buffer size read through "
-               "the hook). Both build profiles. Since the seeded rounds 3-4 also: bursts of 255 .. 65537 consecutive interruptions, two or three readers alive at once with interleaved reads. Since the seeded rounds 5-6 also: line-end runs of 63..257 bytes, blank runs of 6..24 bytes, tokens made of the extreme non-blank bytes '!' and '~'.",
+               "the hook). Both build profiles. Since the seeded rounds 3-4 also: bursts of 255 .. 65537 consecutive interruptions, two or three readers alive at once with interleaved reads. Since the seeded rounds 5-6 also: line-end runs of 63..257 bytes, blank runs of 6..24 bytes, tokens made of the extreme non-blank bytes '!' and '~'. Since the seeded round 7 also: string tokens of 60..1100 characters.",
     level_note="Trusted: the scripted source and the positional reference parser (a generated input the model rejects is "
                "inconclusive, never a violation). Inputs are valid for their scripts; reading past the end is outside the "
                "property. A line read directly after an end-of-input test is not generated (whether that test consumes "
@@ -400,7 +400,7 @@ prop(
     level_text="Exploration: random histories of set/remove/flip/clear/from_u64, the three binary operators, their assigning "
                "forms, complement, clone over a pool of bitsets for six capacities incl. a single word, indices biased to "
                "word boundaries (63/64, last bit); after every operation the touched bitset is observed completely and "
-               "compared with the model set; all ordered pairs of ~40 structured sets per capacity under every operator. Since the seeded rounds 3-4 also: capacities 130, 200 and 4096 words, random scripts of Iterator calls on iter_bits, clone_from. Since the seeded rounds 5-6 also: a 2^26-word set, first use of every operation in a fresh process, exact-exhaustion steps in the iterator scripts.",
+               "compared with the model set; all ordered pairs of ~40 structured sets per capacity under every operator. Since the seeded rounds 3-4 also: capacities 130, 200 and 4096 words, random scripts of Iterator calls on iter_bits, clone_from. Since the seeded rounds 5-6 also: a 2^26-word set, first use of every operation in a fresh process, exact-exhaustion steps in the iterator scripts. Since the seeded round 7 also: equal sets at neighbouring places of an array and behind a Box (storage at different offsets modulo 16).",
     level_note="Trusted: the Vec<bool> model. Capacities outside the instantiated list are not executed (const generic). "
                "Out-of-range indices are outside the property.",
     runs=[
@@ -428,7 +428,7 @@ prop(
                "arbitrary angles, and sweeps at signed margins 0, 1e-13 ... 1 around d=r, d=r1+r2, d=|r1-r2| for radius "
                "ratios 1..1e5 under random rotation and translation. Every reported point must be within 1e-7 of both "
                "primitives (distance to a line computed from its definition, not from the library's normalised "
-               "coefficients); the kind is asserted only at margin 0, |margin|<=1e-10 or |margin|>=1e-8 (gray in between). Since the seeded rounds 3-4 also: lines given by nearly-unit coefficient normals, very large against very small circles near tangency (which uncovered the defect repaired by 01362a5), nearly equal radii at inner tangency, lines cutting a circle next to its centre. Since the seeded rounds 5-6 also: axis-aligned configurations, crossings next to lattice points, line pairs within 1e-9 rad of perpendicular far from the origin, the intersection results consumed from both ends (double-ended iterator scripts).",
+               "coefficients); the kind is asserted only at margin 0, |margin|<=1e-10 or |margin|>=1e-8 (gray in between). Since the seeded rounds 3-4 also: lines given by nearly-unit coefficient normals, very large against very small circles near tangency (which uncovered the defect repaired by 01362a5), nearly equal radii at inner tangency, lines cutting a circle next to its centre. Since the seeded rounds 5-6 also: axis-aligned configurations, crossings next to lattice points, line pairs within 1e-9 rad of perpendicular far from the origin, the intersection results consumed from both ends (double-ended iterator scripts). Since the seeded round 7 also: directions on and within a few 1e-6 rad of the axes and diagonals with margins of a few 1e-6 of the radius (real and lattice), crossing circles whose radii agree to a relative 1e-9.",
     level_note="Trusted: the harness's exact integer classification and f64 margins (error ~1e-13 for magnitudes <= 1e3, two "
                "orders below the guard band). Circle::position is asserted only where the absolute and the relative reading "
                "of the tolerance agree. Coordinates of reported points stay within +-1e3.",
@@ -461,7 +461,7 @@ prop(
                "one-ulp, subnormal, +-1e308, whole finite line, random bit patterns) under raw outputs up to 8192 below "
                "2^64; equal seeds and copies give equal streams; shuffle keeps the multiset and, over 2*10^5 seeds from "
                "five seed families, reaches all n! arrangements of 2..6 elements with chi-square below the 1-1e-12 "
-               "quantile; draws from ranges of 2..256 values have no exact period <= 2048 and pass a serial-pair chi-square. Since the seeded rounds 3-4 also: shuffle census over five element types, seeds driving the state through 0 / 2^k / 2^k-1, serial tests through ten range forms and for every length 2..=2048. Since the seeded rounds 5-6 also: generator clones, ulp-wide float ranges, draws from ranges of related lengths in direct succession (L > 2^32 values, then L mod 2^32, L mod 2^16, L >> 32), the same slice shuffled twice by one generator inside the census.",
+               "quantile; draws from ranges of 2..256 values have no exact period <= 2048 and pass a serial-pair chi-square. Since the seeded rounds 3-4 also: shuffle census over five element types, seeds driving the state through 0 / 2^k / 2^k-1, serial tests through ten range forms and for every length 2..=2048. Since the seeded rounds 5-6 also: generator clones, ulp-wide float ranges, draws from ranges of related lengths in direct succession (L > 2^32 values, then L mod 2^32, L mod 2^16, L >> 32), the same slice shuffled twice by one generator inside the census. Since the seeded round 7 also: empty and one-element shuffles.",
     level_note="Trusted: the harness PRNG (never rlib_rand) and the Wilson-Hilferty quantile (z = 7.2, +10). Statistical checks "
                "fail a correct generator with probability ~1e-12 per run. Seed families are sequential, offset, scrambled, "
                "timestamp-like and strided; families that differ only in the high half of the seed are not demanded "
@@ -493,7 +493,7 @@ prop(
                "7-byte, BUF/3, all-but-one accepts, Interrupted densities up to 50 %); every value of the 8- and 16-bit "
                "integer types and the 10^k / 2^k / MIN / MAX neighbourhoods of the wider ones against std formatting; "
                "strings around BUF; random sequences of 50-400 pieces against hostile sinks; drop without flush; and the "
-               "produced text read back with the real Reader. Run in release (buffered path) and dev (flush-per-write path). Since the seeded rounds 3-4 also: digit-group boundary values anchored at every width's maximum, several writers alive at once, writers dropped by unwinding, sinks with a native write_vectored. Since the seeded rounds 5-6 also: interrupt bursts up to 65536, vectors of 65535..131073 elements, macro arguments with side effects (each argument expression evaluated exactly once), items that render to no bytes inside vectors and tuples.",
+               "produced text read back with the real Reader. Run in release (buffered path) and dev (flush-per-write path). Since the seeded rounds 3-4 also: digit-group boundary values anchored at every width's maximum, several writers alive at once, writers dropped by unwinding, sinks with a native write_vectored. Since the seeded rounds 5-6 also: interrupt bursts up to 65536, vectors of 65535..131073 elements, macro arguments with side effects (each argument expression evaluated exactly once), items that render to no bytes inside vectors and tuples. Since the seeded round 7 also: a writer that changes places with another one between writes (mem::swap), a sink that renders integers with a second Writer while it handles a call.",
     level_note="Trusted: the scripted sink (never accepts 0 bytes of a non-empty buffer), std Display as the rendering "
                "reference, the pending-byte hook. The read-back avoids Interrupted and lone CR (C08's subject).",
     runs=[
@@ -525,7 +525,7 @@ prop(
                "cell of the crate's published table, both argument orders, f64 and f32; history twins (one object fed 5-30 "
                "calls of growing, shrinking, growing sizes incl. fft / fft_inv / *_into / clone / update_n versus a fresh "
                "object per call); *_into additivity into pre-filled longer / exact / shorter destinations; fft -> pointwise "
-               "product -> fft_inv equals multiply; empty and single-element operands. Since the seeded rounds 3-4 also: operands that are two views of one allocation (b a prefix of a), the same vector transformed again at another size, clone_from, histories longer than 2^16 calls, three more octaves of 2^k x {1,2,3,17} products. Since the seeded rounds 5-6 also: zero-padded operands, operands with skewed signs (large negative next to small positive coefficients), large transforms followed by transforms of half / twice the size on one object.",
+               "product -> fft_inv equals multiply; empty and single-element operands. Since the seeded rounds 3-4 also: operands that are two views of one allocation (b a prefix of a), the same vector transformed again at another size, clone_from, histories longer than 2^16 calls, three more octaves of 2^k x {1,2,3,17} products. Since the seeded rounds 5-6 also: zero-padded operands, operands with skewed signs (large negative next to small positive coefficients), large transforms followed by transforms of half / twice the size on one object. Since the seeded round 7 also: a transformer of the other precision used first on a fresh thread, then products at the edge of the envelope.",
     level_note="Trusted: the engine's schoolbook convolution and its NTT+CRT (self-checked against schoolbook at start-up; failure "
                "is inconclusive). The explored envelope is the INTERSECTION of the quantifier formula "
                "max(|a|,|b|)^2*min(la,lb) <= 1e12 (1e3 for f32) and the crate's own table (rlib_fft::precision, read at run "
@@ -560,7 +560,7 @@ prop(
                "must equal the same operations run alone, and its recorded priority stream must be the one a sequential "
                "execution produces (per-thread model) or all streams together must partition the sequential stream with "
                "no draw lost or duplicated (process-global model) - the model is decided by a sequential calibration phase "
-               "against a reference stream drawn in a fresh process. Since the seeded rounds 3-4 also: coincidence schedule, first-use race over 240 (1500) fresh processes, node creation in thread-local destructors, 12 threads operating on 90 000-deep treaps at once. Since the seeded rounds 5-6 also: simultaneous first creations in an unoptimised child (the two-step read-advance race only shows without optimisation), 400 rounds x 16 threads, in-order walks of 90 000-deep treaps on 12 threads at once.",
+               "against a reference stream drawn in a fresh process. Since the seeded rounds 3-4 also: coincidence schedule, first-use race over 240 (1500) fresh processes, node creation in thread-local destructors, 12 threads operating on 90 000-deep treaps at once. Since the seeded rounds 5-6 also: simultaneous first creations in an unoptimised child (the two-step read-advance race only shows without optimisation), 400 rounds x 16 threads, in-order walks of 90 000-deep treaps on 12 threads at once. Since the seeded round 7 also: workers named main / mixed names, the child confined to one CPU.",
     level_note="Trusted: Miri and TSan themselves; the calibration (if the reference stream is not reproducible or matches "
                "neither model the history sub-check declares itself not applicable and the verdict rests on the two "
                "sanitizers). Schedules are sampled, not enumerated; Miri workloads are small.",
@@ -589,7 +589,7 @@ prop(
                "patterns, huge/tiny exponents, infinities, NaN) under + - * / and their assigning forms, min, max, "
                "all six relations and partial_cmp; negation, abs and both conversions for every element; 25 000 random "
                "bit-pattern pairs and 20 000 chains of depth 2-4 whose intermediates need all 64 significand bits "
-               "(x10 in thorough). Natively only: Miri cannot execute inline assembly and valgrind emulates x87 with 64-bit doubles. Since the seeded rounds 3-4 also: single doublings across the overflow / underflow thresholds, sums with exponent gaps 60..68 around every half-ulp boundary. Since the seeded rounds 5-6 also: aliased operands, the integers -130..1030, relations on operands handed by value to non-inlined functions, f80_init() executed first with the x87 control word compared before and after.",
+               "(x10 in thorough). Natively only: Miri cannot execute inline assembly and valgrind emulates x87 with 64-bit doubles. Since the seeded rounds 3-4 also: single doublings across the overflow / underflow thresholds, sums with exponent gaps 60..68 around every half-ulp boundary. Since the seeded rounds 5-6 also: aliased operands, the integers -130..1030, relations on operands handed by value to non-inlined functions, f80_init() executed first with the x87 control word compared before and after. Since the seeded round 7 also: first conversions of fresh threads (sentinel-like bit patterns, NaN payloads), round-trip conversions on eight threads at once.",
     level_note="Trusted: the Python oracle (exact big-integer arithmetic) and the assumption, checked at start-up, that the x87 "
                "control word selects extended precision and round-to-nearest. Zero results of + - * / and negation must carry "
                "the IEEE sign. Not judged because the property speaks about values there: the sign of a zero returned by "
@@ -621,7 +621,7 @@ prop(
                "several times on borrows of different lifetimes, call name equal to a capture's or an argument's name) plus a "
                "28-shape sub-grid recursing 1.3 million frames deep = 2988 generated functions, compiled with the real macro "
                "twice (debug assertions off and on in the expanding crate) and executed on 6 inputs each; a compile error is mapped back to the shape it points into and reported as a violation of "
-               "'compiles'. Since the seeded rounds 5-6 also: literal recursive-call arguments, 4.5 million early returns, capture types that are unsized ([u64] and str, also behind &mut), Cell behind a shared capture and Rc.",
+               "'compiles'. Since the seeded rounds 5-6 also: literal recursive-call arguments, 4.5 million early returns, capture types that are unsized ([u64] and str, also behind &mut), Cell behind a shared capture and Rc. Since the seeded round 7 also: the capture type Vec<&str> (a lifetime hidden in the type), a return type &u64 borrowed from the single shared capture.",
     level_note="Trusted: the generator's hand-written twin (same body text with the macro call replaced by a direct call "
                "passing the captures along). A compile failure that cannot be mapped into a generated shape is "
                "inconclusive. Shapes beyond 4 captures / 4 arguments and capture types with lifetimes are not generated.",
